@@ -377,6 +377,22 @@ func check(r *core.Run) {
 		return strings.Count(body, `"op":"process"`) == 1 && strings.Count(body, `"ok":true,"op":"load"`) >= 2
 	})
 	r.ValidateTrace("determ", col, core.TLCOpts{Module: "ErrorsTrace", Cfg: "ErrorsTrace.cfg", Timeout: 0})
+	if bin != "" {
+		// two revisions of one module on the command line: the rendering is that of the latest, in every run
+		leaf := func(n string) schema.Stmt {
+			return schema.Stmt{Kw: "leaf", Arg: json.RawMessage(`"` + n + `"`), Kids: []schema.Stmt{{Kw: "type", Arg: json.RawMessage(`"string"`), Kids: []schema.Stmt{}}}}
+		}
+		mk := func(name, rev string, imports map[string]string, body ...schema.Stmt) schema.Module {
+			return schema.Module{Name: name, Kind: "module", Pfx: name, Ns: "urn:" + name, Rev: rev, Imports: imports, Includes: []string{}, Body: body}
+		}
+		two := cas{K: 8, Cli: bin, Prog: schema.Prog{Mods: map[string]schema.Module{
+			"bb@2020-01-01": mk("bb", "2020-01-01", map[string]string{}, leaf("old")),
+			"bb@2021-01-01": mk("bb", "2021-01-01", map[string]string{}, leaf("new")),
+			"ib":            mk("ib", "", map[string]string{"bb": "bb"}, leaf("l")),
+		}}}
+		b, _ := json.Marshal(two)
+		cliCases = append(cliCases, b)
+	}
 	if len(cliCases) > 0 {
 		r.SubmitAll("determ", 'A', cliCases)
 		r.Extra["cli_programs"] = len(cliCases)
